@@ -158,37 +158,89 @@ pub enum WriteOutcome {
     Err(String),
 }
 
-/// Runs the real writer on a plain Vec sink.
+/// A sink like a BufWriter in front of a transactional store: takes at most `max` bytes per write call,
+/// holds them as pending and commits them on flush.  `write_vectored` is the default one (the first
+/// non-empty buffer through `write`).  What a reader of the store sees is `committed`.
+pub struct StagedSink {
+    pub committed: Vec<u8>,
+    pending: Vec<u8>,
+    max: usize,
+}
+impl StagedSink {
+    pub fn new(max: usize) -> StagedSink {
+        StagedSink { committed: Vec::new(), pending: Vec::new(), max: max.max(1) }
+    }
+}
+impl std::io::Write for StagedSink {
+    fn write(&mut self, buf: &[u8]) -> std::io::Result<usize> {
+        let n = buf.len().min(self.max);
+        self.pending.extend_from_slice(&buf[..n]);
+        Ok(n)
+    }
+    fn flush(&mut self) -> std::io::Result<()> {
+        self.committed.append(&mut self.pending);
+        Ok(())
+    }
+}
+
+/// Runs the real writer.  Four public routes in turn: an owned Vec and `into_inner`; a borrowed Vec and
+/// `finish`; a borrowed staged sink (partial writes, commit on flush) and `finish`; an owned staged sink and
+/// `into_inner`.  For the staged sink the file is what has been committed when the call returns.
 pub fn write_file(cfg: &FileCfg, entries: &[(Vec<u8>, Vec<u8>)]) -> WriteOutcome {
-    // every other file goes through the other public route: a borrowed sink and Writer::finish
-    if entries.len() % 2 == 1 {
-        let mut sink: Vec<u8> = Vec::new();
-        let mut w = cfg.builder().build(&mut sink);
-        for (i, (k, v)) in entries.iter().enumerate() {
-            match catch(|| w.insert(k, v)) {
-                Ok(Ok(())) => {}
-                Ok(Err(e)) => return WriteOutcome::Err(io_class(&e)),
-                Err(_) => return WriteOutcome::PanicInsert(i),
+    let total: usize = entries.iter().map(|(k, v)| k.len() + v.len()).sum();
+    let route = (entries.len() + total) % 4;
+    // a staged sink taking 1..7 bytes per call is too slow for large files: a few hundred there
+    let max = if total > 20_000 { 300 + total % 500 } else { 1 + total % 7 };
+    macro_rules! inserts {
+        ($w:expr) => {
+            for (i, (k, v)) in entries.iter().enumerate() {
+                match catch(|| $w.insert(k, v)) {
+                    Ok(Ok(())) => {}
+                    Ok(Err(e)) => return WriteOutcome::Err(io_class(&e)),
+                    Err(_) => return WriteOutcome::PanicInsert(i),
+                }
             }
-        }
-        return match catch(move || w.finish()) {
-            Ok(Ok(())) => WriteOutcome::File(sink),
-            Ok(Err(e)) => WriteOutcome::Err(io_class(&e)),
-            Err(_) => WriteOutcome::PanicFinish,
         };
     }
-    let mut w = cfg.builder().build(Vec::new());
-    for (i, (k, v)) in entries.iter().enumerate() {
-        match catch(|| w.insert(k, v)) {
-            Ok(Ok(())) => {}
-            Ok(Err(e)) => return WriteOutcome::Err(io_class(&e)),
-            Err(_) => return WriteOutcome::PanicInsert(i),
+    match route {
+        1 => {
+            let mut sink: Vec<u8> = Vec::new();
+            let mut w = cfg.builder().build(&mut sink);
+            inserts!(w);
+            match catch(move || w.finish()) {
+                Ok(Ok(())) => WriteOutcome::File(sink),
+                Ok(Err(e)) => WriteOutcome::Err(io_class(&e)),
+                Err(_) => WriteOutcome::PanicFinish,
+            }
         }
-    }
-    match catch(move || w.into_inner()) {
-        Ok(Ok(bytes)) => WriteOutcome::File(bytes),
-        Ok(Err(e)) => WriteOutcome::Err(io_class(&e)),
-        Err(_) => WriteOutcome::PanicFinish,
+        2 => {
+            let mut sink = StagedSink::new(max);
+            let mut w = cfg.builder().build(&mut sink);
+            inserts!(w);
+            match catch(move || w.finish()) {
+                Ok(Ok(())) => WriteOutcome::File(sink.committed),
+                Ok(Err(e)) => WriteOutcome::Err(io_class(&e)),
+                Err(_) => WriteOutcome::PanicFinish,
+            }
+        }
+        3 => {
+            let mut w = cfg.builder().build(StagedSink::new(max));
+            inserts!(w);
+            match catch(move || w.into_inner()) {
+                Ok(Ok(sink)) => WriteOutcome::File(sink.committed),
+                Ok(Err(e)) => WriteOutcome::Err(io_class(&e)),
+                Err(_) => WriteOutcome::PanicFinish,
+            }
+        }
+        _ => {
+            let mut w = cfg.builder().build(Vec::new());
+            inserts!(w);
+            match catch(move || w.into_inner()) {
+                Ok(Ok(bytes)) => WriteOutcome::File(bytes),
+                Ok(Err(e)) => WriteOutcome::Err(io_class(&e)),
+                Err(_) => WriteOutcome::PanicFinish,
+            }
+        }
     }
 }
 
